@@ -43,7 +43,7 @@ func runHarness(ld *Loaded, fn *ssa.Function, cfg *RunConfig) (h *HarnessRun, e 
 	h = &HarnessRun{Name: fn.Name(), Fn: fn, failSeen: map[string]bool{}, Asserts: map[string]*AssertStat{}, maxTraces: 3}
 	e.h = h
 	e.tier = cfg.Tier
-	budget := 420 * time.Second
+	budget := 600 * time.Second
 	if cfg.Tier == "thorough" {
 		budget = 3000 * time.Second
 	}
